@@ -26,6 +26,7 @@ const (
 	classStale  = "stale-val-forced-settle"
 	classRefund = "refund-minted"
 	classDust   = "deleted-validator-dust"
+	classNegRec = "negative-pending-record"
 )
 
 // Case is a chain history: configuration index, genesis validators, exclusions in force
@@ -60,7 +61,7 @@ func genCase(t *rapid.T) Case {
 	// Evidence against a validator with stake 0 is kept out while the tree still crashes on it
 	// (C05 zero-stake-division, probed once per process). A penalty amount of 0 (C05/C06
 	// zero-penalty-divergence) is a builder/importer matter and harmless for this builder-only check.
-	c.Excl = sc.Excl{AutoSettle: kit.IsKnown(classStale), NoRefund: kit.IsKnown(classRefund), NoEmpty: kit.IsKnown(classDust), ZeroStake: sc.ZeroStakePenaltyPanics(c.Cfg)}
+	c.Excl = sc.Excl{AutoSettle: kit.IsKnown(classStale), NoRefund: kit.IsKnown(classRefund), NoEmpty: kit.IsKnown(classDust), NoNegRec: kit.IsKnown(classNegRec), ZeroStake: sc.ZeroStakePenaltyPanics(c.Cfg)}
 	c.Gen = sc.GenGenesis(t, cfg)
 	maxBlocks := 64
 	if kit.Thorough() {
@@ -246,6 +247,7 @@ func runCase(c Case) kit.Result {
 	constant := new(big.Int).Set(pre.Total)
 	detained := new(big.Int)
 	var rs runStats
+	selfWd, unbound := map[common.Address]bool{}, map[common.Address]bool{} // successful self-withdrawals / unbinds of the current period, by validator
 
 	for bi, bs := range c.Blocks {
 		step, err := w.Step(bs, c.Excl)
@@ -285,6 +287,12 @@ func runCase(c Case) kit.Result {
 			if m.Staking {
 				if r.Status == types.ReceiptStatusSuccessful {
 					rs.stakingOK++
+					if m.Action == staking.ValidatorWithDraw {
+						selfWd[m.Target] = true
+					}
+					if m.Action == staking.DelegationSub {
+						unbound[m.Target] = true
+					}
 					if m.Detain != nil && (m.Action == staking.ValidatorCreate || m.Action == staking.ValidatorDeposit || m.Action == staking.DelegationAdd) {
 						detained.Add(detained, m.Detain)
 					}
@@ -373,7 +381,15 @@ func runCase(c Case) kit.Result {
 			}
 		}
 		// --- the conservation sum
+		detainedBefore := new(big.Int).Set(detained)
+		negRecCandidate := false
+		for v := range selfWd {
+			if unbound[v] {
+				negRecCandidate = true
+			}
+		}
 		if step.PeriodEnd {
+			selfWd, unbound = map[common.Address]bool{}, map[common.Address]bool{}
 			rs.periodEnds++
 			detained.SetUint64(0) // every pending deposit took effect or was refunded
 			for _, v := range pre.Vals {
@@ -388,6 +404,13 @@ func runCase(c Case) kit.Result {
 			if ok, why := staleSettlePredicate(pre, post, diff, &yp); ok {
 				return kit.Fail(classStale, "block %d: %s are missing from the conservation sum: %s\nbefore: %s\nafter:  %s detained=%s",
 					num, sc.LU(diff), why, pre.Breakdown(), post.Breakdown(), detained)
+			}
+			// negative-pending-record: in this period a validator had a successful self-withdrawal and a
+			// successful delegation unbind, and exactly the deposits detained during the period are gone
+			// (processPendingTxs aborted: nothing took effect, nothing was refunded)
+			if step.PeriodEnd && negRecCandidate && diff.Sign() > 0 && diff.Cmp(detainedBefore) == 0 {
+				return kit.Fail(classNegRec, "block %d: the %s detained by this period's deposits are missing from the conservation sum: a self-withdrawal and a delegation unbind of one validator in the same period drove its pending record negative, so no pending transaction of the period took effect or was refunded\nbefore: %s\nafter:  %s",
+					num, sc.LU(diff), pre.Breakdown(), post.Breakdown())
 			}
 			if ok, why := dustPredicate(pre, post, diff); ok {
 				return kit.Fail(classDust, "block %d: %s LU are missing from the conservation sum: %s\nbefore: %s\nafter:  %s detained=%s",
